@@ -74,6 +74,7 @@ func checkC18(c *Ctx) {
 	c18Confinement(c)
 	c18Accumulate(c)
 	c18ImpliedTask(c)
+	c18TerminatedReleases(c)
 	c18Cycle(c)
 	c.expect("typestate.transition", 4)
 }
@@ -976,4 +977,82 @@ func c18ImpliedTask(c *Ctx) {
 		c.check("deps.concrete-containers-still-depend", f.Name+"/"+row.name, f.Decl.Pos(), ok,
 			fmt.Sprintf("under IgnoreConcrete a reference to a %s must%s reach the task lookup (structs and lists are never final: a task may still fill them); lookup reached=%v, early nil=%v", row.name, map[bool]string{true: "", false: " not"}[row.mustLookup], vis[lookup], early))
 	}
+}
+
+// c18TerminatedReleases: a task that reaches Terminated releases its
+// dependants only when markReady is called afterwards. The normal completion
+// path (receive from taskCh) does that; every *other* assignment of Terminated
+// inside the run loop — a Ready task dropped because its path vanished — must
+// also reach markReady before the loop decides that nothing is running
+// (break / "deadlock"), or the dependants stay Waiting for ever.
+func c18TerminatedReleases(c *Ctx) {
+	rl := c.fn("tools/flow", "(*Controller).runLoop")
+	g := c.graph(rl)
+	info := rl.Info()
+	mark := g.callNodes("tools/flow.(*Controller).markReady")
+	term := g.find(func(n ast.Node) bool {
+		as, ok := n.(*ast.AssignStmt)
+		if !ok || len(as.Lhs) != 1 || len(as.Rhs) != 1 {
+			return false
+		}
+		sel, ok := as.Lhs[0].(*ast.SelectorExpr)
+		if !ok || sel.Sel.Name != "state" {
+			return false
+		}
+		k, ok := identObj(info, as.Rhs[0]).(*types.Const)
+		return ok && k.Name() == "Terminated"
+	})
+	// the decision "nothing is running": the condition node on `!running`
+	var decide []int
+	for _, n := range g.Nodes {
+		for _, e := range n.Succs {
+			if e.Cond != nil && strings.Contains(exprString(e.Cond), "running") && !strings.Contains(exprString(e.Cond), "Running") {
+				decide = append(decide, n.ID)
+			}
+		}
+	}
+	ok := len(term) >= 2 && len(mark) > 0 && len(decide) > 0
+	det := ""
+	for _, t := range term {
+		// variables set to a non-nil value right after the assignment (a
+		// "remember this task" flag): the edge on which such a variable tests
+		// nil is infeasible afterwards
+		nonNil := map[types.Object]bool{}
+		for cur, steps := t, 0; steps < 4; steps++ {
+			if len(g.Nodes[cur].Succs) != 1 {
+				break
+			}
+			cur = g.Nodes[cur].Succs[0].To
+			if as, ok := g.Nodes[cur].N.(*ast.AssignStmt); ok && len(as.Lhs) == 1 && len(as.Rhs) == 1 && !isNilIdent(as.Rhs[0]) {
+				if o := identObj(info, as.Lhs[0]); o != nil {
+					if _, isPtr := o.Type().Underlying().(*types.Pointer); isPtr {
+						nonNil[o] = true
+					}
+				}
+			}
+		}
+		infeasible := func(from int, e GEdge) bool {
+			if e.Cond == nil {
+				return false
+			}
+			be, ok := ast.Unparen(e.Cond).(*ast.BinaryExpr)
+			if !ok || !isNilIdent(be.Y) || !nonNil[identObj(info, be.X)] {
+				return false
+			}
+			return (be.Op == token.NEQ) != e.Truth
+		}
+		r := g.reach([]int{t}, func(id int) bool { _, is := mark[id]; return is }, infeasible)
+		for _, d := range decide {
+			// reaching the decision and then leaving the loop (break/return/exit) without markReady
+			if r[d] {
+				r2 := g.reach([]int{d}, func(id int) bool { _, is := mark[id]; return is }, infeasible)
+				if r2[g.Exit] {
+					ok = false
+					det = fmt.Sprintf("; the Terminated assignment at %s reaches the `!running` decision and the loop exit without markReady", c.pos(g.pos(t)))
+				}
+			}
+		}
+	}
+	c.check("release.every-termination-marks-ready", rl.Name, rl.Body.Pos(), ok,
+		"every assignment of Terminated in runLoop must be followed by markReady before the loop can decide that nothing is running: a task dropped because its path vanished counts as completed for its dependants, which otherwise stay Waiting (spurious \"deadlock\" on an acyclic workflow)"+det)
 }
